@@ -1870,8 +1870,11 @@ class _FormatInferInstance(Visitor):
         over_neg = exact.neg_bound < scope_af.neg_bound
         if over_pos or over_neg:
             # an overflowing value may land on C's largest value, which has
-            # C's precision rather than F's
+            # C's precision rather than F's -- or, under a wrapping overflow,
+            # anywhere in C's range, whatever its own sign
             prec = scope_af.prec
+            pos_bound = scope_af.pos_bound
+            neg_bound = scope_af.neg_bound
         lost_inf = (
             (exact.has_pos_inf and not scope_af.has_pos_inf)
             or (exact.has_neg_inf and not scope_af.has_neg_inf)
